@@ -668,11 +668,18 @@ func (e *Exec) finish(vars map[string]Value) {
 		if lbl == "" {
 			lbl = fmt.Sprintf("%d", i+1)
 		}
+		isKnown := false
 		for _, c := range cases {
 			e.oblige("post", lbl+c.label, en.Text, en.Props, c.guard, t)
+			if knownFailing[e.Key+"#post["+lbl+c.label+"]"] {
+				isKnown = true
+			}
 		}
-		// assert-then-assume: later postconditions (and the interface contract) may use this one
-		e.assume(t)
+		// assert-then-assume: later postconditions (and the interface contract) may use this one -
+		// unless it is recorded as a known finding (it does not hold, so it must not support other proofs)
+		if !isKnown {
+			e.assume(t)
+		}
 	}
 	// behavioural subtyping: the contract of an interface method binds every implementation
 	for _, ic := range e.ifaceContractsFor() {
